@@ -389,8 +389,10 @@ class Collocator:
         try:
             processed = 0
             collocated_matches = self._collocate_matches(**kwargs)
-            for collocations, attributes in collocated_matches:
-                match = matches[processed]
+            for collocations, attributes, match in collocated_matches:
+                # `match` are the two files of this result. Do not take them
+                # from `matches`: file pairs that are skipped due to reading
+                # errors (skip_file_errors) do not yield any result.
                 processed += 1
                 progress = 100 * processed / len(matches)
 
@@ -535,11 +537,10 @@ class Collocator:
         """Load file matches and collocate their content
 
         Yields:
-            A tuple of two items: the first is always the current percentage
-            of progress. If output is True, the second is only the filename of
-            the saved collocations. Otherwise, it is a tuple of collocations
-            and their collected :class:`~typhon.files.handlers.common.FileInfo`
-            attributes as a dictionary.
+            A tuple of three items: the collocations (None if nothing was
+            found), the collected attributes of the two files as a dictionary
+            and the :class:`~typhon.files.handlers.common.FileInfo` objects of
+            the primary and the secondary file.
         """
         # Load all matches in a parallized queue:
         loaded_matches = filesets[0].align(
@@ -567,7 +568,7 @@ class Collocator:
             if collocations is None:
                 self._debug("Found no collocations!")
                 # At least, give the process caller a progress update:
-                yield None, None
+                yield None, None, files
                 continue
 
             # Check whether the collocation data is compatible and was build
@@ -599,7 +600,7 @@ class Collocator:
                 for p, v in file.attr.items()
             }
 
-            yield collocations, attributes
+            yield collocations, attributes, files
 
 
     def collocate(
